@@ -83,6 +83,13 @@ def gen_cases(ctx, more=1):
         for r in range(ctx.pick(1, 3) * more):
             eta = [0.5, 0.25, 0.9, 0.0, 1.0][k % 5] if r or k % 3 else 0.5
             cases.append(mk_smooth(rng, beta, eta, sshapes[k % len(sshapes)], vox[k % 3])); k += 1
+    # large design voxels (THz / microwave scale) with a tiny but non-zero finite-difference gradient far from any interface:
+    # the masked cells must still get a finite (zero) gradient
+    for beta, eta, vx in ([(8.0, 0.5, 1e-3), ("inf", 0.25, 1e-5)] if ctx.quick else [(8.0, 0.5, 1e-3), ("inf", 0.25, 1e-5), (0.0, 0.9, 1e-3), (64.0, 1.0, 1e-4)]):
+        m = mk_smooth(rng, beta, eta, [4, 5, 1], [vx] * 3)
+        a = np.asarray([[float(rng.randint(0, 9)) * 1e-153 for _ in range(5)] for _ in range(4)])
+        m["x"] = hx(a.reshape(4, 5, 1)); m["tiny"] = True
+        cases.append(m)
     # malformed
     m = mk_smooth(rng, 8.0, 0.5, [4, 4, 1], [1e-6, 2e-6, 1e-6]); m["malformed"] = True; cases.append(m)       # unequal voxel sizes
     m = mk_smooth(rng, 8.0, 0.5, [1, 1, 4], [1e-6] * 3); m["malformed"] = True; cases.append(m)               # extent 1 < 2 in the plane
@@ -118,6 +125,8 @@ def model_call(c, out):
 
 
 def coq_expr(c, out):
+    if c.get("tiny"):
+        return None      # values in the float underflow range: outside the exact-arithmetic model (its sqrt oracle is keyed by exact arguments); predicate only
     tt = tab(out.get("tanh", [])); ts = tab(out.get("sqrt", []))
     m = model_call(c, out)
     if "error" in out:
